@@ -143,14 +143,18 @@ def scanDb (file : Bytes) : Option (List Pkg) :=
 
 /-! ### distroless: one file of `status.d` -/
 
-/-- `DistrolessScanner`: every non-empty header (nil error or EOF) is a
-    package, no Status filter, `Source` taken verbatim with the binary's
-    version, a source only when the field is non-empty. The loop stops at EOF and at
-    any non-ProtocolError condition (an empty header with a nil error,
-    `errMessageTooLarge`). -/
+/-- `DistrolessScanner` (as of fix 3d16edb5): every non-empty header (nil error
+    or EOF) is a package, no Status filter; a non-empty `Source` is split like
+    in `parseStatus` (`name (version)`, else the binary's version), each package
+    has its own source object. The loop stops at EOF and at any
+    non-ProtocolError condition (an empty header with a nil error,
+    `errMessageTooLarge`). A package without source is shown with empty source fields. -/
 def distrolessPkg (h : Hdr) : Pkg :=
   let src := h.get kSource
-  ⟨h.get kPackage, h.get kVersion, h.get kArchitecture, src, if src.isEmpty then [] else h.get kVersion⟩
+  if src.isEmpty then ⟨h.get kPackage, h.get kVersion, h.get kArchitecture, [], []⟩
+  else
+    let s := splitSource src (h.get kVersion)
+    ⟨h.get kPackage, h.get kVersion, h.get kArchitecture, s.1, s.2⟩
 
 def distrolessEvents : List Ev → List Pkg
   | [] => []
